@@ -301,6 +301,89 @@ fn run_schedule(sched: &[f64], assigns: &[Vec<Option<K>>], chain_first: bool, ra
     }
 }
 
+
+// ------------------------------------------------------------------------------------------------
+// Mirror pass: the "other" animator on the entity reports a state change in EVERY frame (it is reset
+// before each frame), so in the frame in which the governed animator ends there are always two events
+// for the entity, in whichever order the two `animate` systems run in this process. Run once with C
+// governed / Q foreign and once with Q governed / C foreign, so both event orders occur. Oracle: S5
+// (the chain advances one frame after the governed animator ended) and S6 (the key moves only then).
+
+macro_rules! mirror_pass {
+    ($fname:ident, $G:ident, $F:ident, $gset:ident, $fset:ident, $label:expr) => {
+        fn $fname(sched: &[f64], rank0: u64, acc: &mut Acc) {
+            let mut d = Driver::new(|app| {
+                app.add_plugins((AnimationPlugin::<C>::new(), AnimationPlugin::<Q>::new()));
+                app.register_animation_key::<C, K>();
+                app.register_animation_key::<Q, K>();
+            });
+            acc.apps += 1;
+            let gtl = |dur: f32, delay: f32, v: f32| $G::timeline().duration_seconds(dur).delay_seconds(delay).keyframe($G::keyframe(1.0).$gset(v)).build();
+            let ftl = $F::timeline().duration_seconds(20.0).delay_seconds(0.25).keyframe($F::keyframe(1.0).$fset(1.0)).build();
+            // (chain map, foreign animator reset before every frame?)
+            let variants: [(&[(K, K)], bool); 4] = [(&[(K::A, K::B)], true), (&[(K::A, K::B), (K::B, K::A)], true), (&[(K::A, K::B)], false), (&[(K::A, K::C)], true)];
+            let mut ents: Vec<(Entity, usize, Option<K>, Option<K>)> = vec![]; // entity, variant, acted key, ended-in-previous-frame key
+            for (vi, (map, _)) in variants.iter().enumerate() {
+                let sel = AnimationSelectorBuilder::<K, $G>::new().add(K::A, gtl(0.5, 0.0, 10.0)).add(K::B, gtl(0.5, 0.25, 20.0)).add(K::C, gtl(0.25, 0.0, 30.0)).build();
+                let mut cb = AnimationChainBuilder::<K>::new();
+                for (a, b) in map.iter() {
+                    cb = cb.add(*a, *b);
+                }
+                let e = d.app.world.spawn(($G::default(), Animator::<$G>::new(), sel, cb.build(), $F::default(), Animator::<$F>::with_timeline(ftl.clone()))).id();
+                ents.push((e, vi, None, None));
+            }
+            for (f, &dsec) in sched.iter().enumerate() {
+                let delta = Duration::from_secs_f64(dsec);
+                let mut pre = vec![];
+                for (e, vi, _, _) in ents.iter() {
+                    if variants[*vi].1 && f > 0 {
+                        d.app.world.get_mut::<Animator<$F>>(*e).unwrap().reset();
+                    }
+                    let a = d.app.world.get::<Animator<$G>>(*e).unwrap();
+                    pre.push((d.app.world.get::<AnimationSelector<K, $G>>(*e).unwrap().timeline_key, a.state()));
+                }
+                let _ = d.frame(delta);
+                for (i, ent) in ents.iter_mut().enumerate() {
+                    acc.entity_frames += 1;
+                    acc.rule_checks += 1;
+                    let (okey, ostate) = pre[i];
+                    let nkey = d.app.world.get::<AnimationSelector<K, $G>>(ent.0).unwrap().timeline_key;
+                    let nstate = d.app.world.get::<Animator<$G>>(ent.0).unwrap().state();
+                    let map = variants[ent.1].0;
+                    let expected = match ent.3 {
+                        Some(k) if okey == k => map.iter().find(|m| m.0 == k).map(|m| m.1),
+                        _ => None,
+                    };
+                    let rk = rank0 | (f as u64) << 8 | i as u64;
+                    let case = || json!({"pass": "mirror", "governed_component": $label, "frame_deltas_s": sched, "chain_map": map.iter().map(|(a, b)| format!("{a:?}->{b:?}")).collect::<Vec<_>>(), "other_animator_reset_before_every_frame": variants[ent.1].1,
+                        "keys": {"A": "0.5 s", "B": "0.5 s after 0.25 s", "C": "0.25 s"}, "other_animator": "20 s after 0.25 s"});
+                    if nkey != okey {
+                        acc.chain_fires += 1;
+                        if Some(nkey) != expected {
+                            acc.sink.add("S6:key-changed-without-cause", rk, || (format!("mirror pass ({} governed), frame {f}: key moved {okey:?} -> {nkey:?}, justified move: {expected:?}; deltas {sched:?}", $label), case()));
+                        }
+                    } else if let Some(k2) = expected {
+                        if k2 != okey {
+                            acc.sink.add("S5:chain-did-not-advance:other-animator-changed-state-in-the-same-frame", rk, || (format!("mirror pass ({} governed), frame {f}: the governed animator ended on {:?} in the previous frame, the chain maps it to {k2:?}, but the key is still {nkey:?} (the other animator on the entity reported a state change in that frame too); deltas {sched:?}", $label, ent.3), case()));
+                        }
+                    }
+                    // which key is the animator acting on: the select system follows the key
+                    let chain_seen = nkey;
+                    if ent.2 != Some(chain_seen) && nstate != AnimationState::Ended {
+                        ent.2 = Some(chain_seen);
+                    }
+                    if ent.2.is_none() {
+                        ent.2 = Some(okey);
+                    }
+                    ent.3 = if ostate != AnimationState::Ended && nstate == AnimationState::Ended { Some(okey) } else { None };
+                }
+            }
+        }
+    };
+}
+mirror_pass!(mirror_c_governed, C, Q, x, w, "C");
+mirror_pass!(mirror_q_governed, Q, C, w, x, "Q");
+
 pub fn run(run: Run) -> ! {
     let thorough = run.is_thorough();
     let depth = if thorough { 6 } else { 5 };
@@ -373,13 +456,32 @@ pub fn run(run: Run) -> ! {
     let dev = par_fold(scheds.len(), Acc::default, |si, acc| run_schedule(&scheds[si], &hdev, chain_first, (1u64 << 62) | (si as u64) << 40, acc), merge);
     let dev_apps = dev.apps;
     merge(&mut acc, dev);
+    // mirror pass over all schedules of length depth+2
+    let mdepth = depth + 2;
+    let mir = par_fold(
+        3usize.pow(mdepth as u32),
+        Acc::default,
+        |si, acc| {
+            let mut sched = vec![];
+            let mut c = si;
+            for _ in 0..mdepth {
+                sched.push(DELTAS[c % 3]);
+                c /= 3;
+            }
+            mirror_c_governed(&sched, (2u64 << 60) | (si as u64) << 20, acc);
+            mirror_q_governed(&sched, (2u64 << 60) | (1 << 59) | (si as u64) << 20, acc);
+        },
+        merge,
+    );
+    let mir_apps = mir.apps;
+    merge(&mut acc, mir);
     let mut cov = Map::new();
     cov.insert("states".into(), json!(acc.entity_frames));
     cov.insert("transitions".into(), json!(acc.entity_frames));
     cov.insert("traces_validated_against_impl".into(), json!(acc.apps));
     cov.insert("evaluations".into(), json!(acc.rule_checks));
     cov.insert("distinct_nontrivial".into(), json!(acc.switches + acc.chain_fires));
-    cov.insert("rule".into(), json!(format!("real headless bevy App (AnimationPlugin<C>, AnimationPlugin<Q>, register_animation_key::<C,K>, hand-driven Time): ALL {} frame-delta schedules of length {} over {{1/4, 8, 0}} s x ALL {} key-assignment histories (before each frame: nothing or key := A|B|C|N, including the current key) x 6 chain maps (none, A->B, A->B+B->A, A->N, B->C, reset_after(B)); initial key A (default) or B (builder) x {{one animated component, a second component Q with its own short animator}}; plus a deviation-bounded pass ({} schedules of {} frames, default delta 1/4, <= {} deviations) with <= 2 assignments. Rules: S1 component unchanged in the frame a key change is acted on; S2 animation restarted from position 0 on the new key's timeline, thereafter the component equals that timeline started from the values at the switch; S3 key without timeline: state None, component frozen; S4 re-assigning the current key restarts nothing; S5 governed animator ended on k in frame f and chain(k)=k' and the user did not re-assign => key is k' in frame f+1; S6 the key changes only by assignment or S5 (the Ended must come from the governed animator and be applied to the key that ended). non-trivial = key changes acted on + chain moves", nsched, depth, hs.len(), dev_apps, horizon, k)));
+    cov.insert("rule".into(), json!(format!("real headless bevy App (AnimationPlugin<C>, AnimationPlugin<Q>, register_animation_key::<C,K>, hand-driven Time): ALL {} frame-delta schedules of length {} over {{1/4, 8, 0}} s x ALL {} key-assignment histories (before each frame: nothing or key := A|B|C|N, including the current key) x 6 chain maps (none, A->B, A->B+B->A, A->N, B->C, reset_after(B)); initial key A (default) or B (builder) x {{one animated component, a second component Q with its own short animator}}; plus a deviation-bounded pass ({} schedules of {} frames, default delta 1/4, <= {} deviations) with <= 2 assignments; plus a mirror pass ({} Apps: all schedules of length {}, entities whose OTHER animator is reset before every frame and therefore reports a state change in every frame, once with C governed / Q foreign and once with Q governed / C foreign, so that both orders of the two events occur whatever order the animate systems have in this process; S5/S6 only). Rules: S1 component unchanged in the frame a key change is acted on; S2 animation restarted from position 0 on the new key's timeline, thereafter the component equals that timeline started from the values at the switch; S3 key without timeline: state None, component frozen; S4 re-assigning the current key restarts nothing; S5 governed animator ended on k in frame f and chain(k)=k' and the user did not re-assign => key is k' in frame f+1; S6 the key changes only by assignment or S5 (the Ended must come from the governed animator and be applied to the key that ended). non-trivial = key changes acted on + chain moves", nsched, depth, hs.len(), dev_apps, horizon, k, mir_apps, mdepth)));
     cov.insert("exhaustive".into(), json!(true));
     cov.insert("apps".into(), json!(acc.apps));
     cov.insert("system_order_in_this_process".into(), json!(if chain_first { "chain_animations, select_animation, animate" } else { "select_animation, chain_animations, animate" }));
